@@ -69,6 +69,10 @@ func RunDSL() error {
 		finalizeSet(ExpressionSet{root})
 		root.WalkSets(finalizeSet)
 	}
+	if Context.Errors != nil {
+		// errors reported while finalizing
+		return Context.Errors
+	}
 
 	return nil
 }
